@@ -28,6 +28,11 @@ def run(check: Check, repo: Repo, tier: str) -> None:
     T.announce_cover(check, repo)
     T.ancestor_walk(check, repo)
     T.graph_owners(check, repo)
+    T.error_keeps_items(check, repo)
+    from rules import exec_rules as X
+
+    X.future_exception_guard(check, repo, repo.package_modules('execution'))
+    G.param_readonly(check, [repo.func('execution.incremental.incremental_executor', 'IncrementalExecutor.get_new_delivery_group_map')])
     G.iter_mutation(check, [f for m in repo.package_modules('execution') for f in m.functions()])
     check.floor("ITER-MUTATION", 40, "functions with loops in execution/")
     T.stale_loop_var(check, repo, repo.package_modules('execution.incremental'))
